@@ -25,7 +25,7 @@ pub const META: PropMeta = PropMeta {
     required_counters: &[
         "hook[rtp:composite]", "hook[rtp:variant]", "hook[rtp:sequence]", "hook[rtp:array]", "hook[rtp:tuple]",
         "hook[rtp:primitive]", "hook[rtp:compact]", "hook[rtp:bitsequence]", "hook[rtp:param-match]",
-        "hook[rtp:cow-unwrap]", "ids_related", "encodings_roundtripped",
+        "hook[rtp:cow-unwrap]", "ids_related", "encodings_roundtripped", "artifact_roundtrips_ok", "artifact_cases_compiled",
     ],
     floor: (300, 5000),
     shards: (16, 16),
@@ -173,7 +173,7 @@ pub fn codec_tier(
     let k = 4;
     for _ in 0..k {
         let mut bytes = Vec::new();
-        let mut g = EncGen { reg, rng: &mut *rng, canonical_collections: false, budget: 400, saw_unit_compact: false };
+        let mut g = EncGen { reg, rng: &mut *rng, canonical_collections: false, budget: 400, saw_unit_compact: false, steps: 0 };
         if let Err(e) = g.gen(id, 0, &mut bytes) {
             ctx.count(&format!("encoding_not_generated[{}]", e.split(' ').take(3).collect::<Vec<_>>().join(" ")), 1);
             return;
@@ -242,6 +242,52 @@ pub fn hex(b: &[u8]) -> String {
     s
 }
 
+pub fn hex_full(b: &[u8]) -> String {
+    let mut s = String::with_capacity(b.len() * 2);
+    for x in b {
+        s.push_str(&format!("{x:02x}"));
+    }
+    s
+}
+
+/// Inputs of one artifact batch: simulator programs (codec-derive settings) and, optionally,
+/// the de-duplicated Polkadot registry.
+pub fn artifact_inputs(ctx: &Ctx, label: &str, n_sim: u64, with_polkadot: bool, allow_alias: bool) -> Vec<crate::art::ArtInput> {
+    use crate::art::*;
+    use rand::Rng;
+    let mut inputs = Vec::new();
+    for case in 0..n_sim {
+        let mut rng = ctx.rng(label, case);
+        let mut cfg = GenCfg::default();
+        cfg.nested_phantom = case % 4 == 1;
+        cfg.allow_alias = allow_alias && case % 5 == 0;
+        cfg.allow_char = false;
+        cfg.p_assoc = if case % 3 == 0 { 0.5 } else { 0.15 };
+        let prog = ProgGen::new(&mut rng, cfg).gen_program();
+        let out = sim::simulate(&prog);
+        let cf = sim::cf_source(&prog, &out);
+        let noncf: BTreeSet<u32> = cf.iter().filter(|(_, r)| r.is_some()).map(|(i, _)| *i).collect();
+        let mut r = out.registry.clone();
+        if !matches!(guard(|| scale_typegen::utils::ensure_unique_type_paths(&mut r)), Ok(Ok(()))) {
+            continue;
+        }
+        let unjudged = unjudged_ids(&r, &noncf);
+        let root = pick_root(&mut rng, &r);
+        let d = artifact_sdesc(&root, rng.gen_bool(0.5), rng.gen_bool(0.5), false);
+        inputs.push(ArtInput { label: format!("{label}#{case}"), reg: r, d, unjudged, source: Some(prog.render_source("TypeInfo")) });
+    }
+    if with_polkadot {
+        let mut r = reg::load_polkadot();
+        let noncf: BTreeSet<u32> = r.types.iter().filter(|t| reg::non_cf_reason(&r, t.id).is_some()).map(|t| t.id).collect();
+        let unjudged = unjudged_ids(&r, &noncf);
+        if matches!(guard(|| scale_typegen::utils::ensure_unique_type_paths(&mut r)), Ok(Ok(()))) {
+            let d = artifact_sdesc("runtime_types", true, true, true);
+            inputs.push(ArtInput { label: "polkadot".into(), reg: r, d, unjudged, source: None });
+        }
+    }
+    inputs
+}
+
 pub fn sim_case(ctx: &mut Ctx, case: u64, cfg: GenCfg, n_settings: usize) {
     let mut rng = ctx.rng("sim", case);
     let prog = ProgGen::new(&mut rng, cfg).gen_program();
@@ -273,6 +319,18 @@ pub fn sim_case(ctx: &mut Ctx, case: u64, cfg: GenCfg, n_settings: usize) {
 }
 
 pub fn run(ctx: &mut Ctx) {
+    // artifact tier: the emitted modules compiled with rustc and the real codec derives
+    let batches = ctx.tier.pick(1usize, 8usize);
+    if ctx.shard < batches.min(4) {
+        let mut b = ctx.shard;
+        while b < batches {
+            let inputs = artifact_inputs(ctx, &format!("artifact-{}-{b}", ctx.seed), ctx.tier.pick(40, 120), b == 0, false);
+            let st = crate::art::run_batch(ctx, "C01", inputs, ctx.shard, ctx.tier.pick(6, 12));
+            ctx.count("artifact_batches", 1);
+            ctx.count("artifact_roundtrips", st.roundtrips);
+            b += 4;
+        }
+    }
     let n = ctx.tier.pick(2500u64, 150_000u64);
     for case in 0..n {
         if !ctx.mine(case) {
@@ -330,6 +388,13 @@ pub fn replay(ctx: &mut Ctx, v: &serde_json::Value) {
         }
     };
     let noncf: BTreeSet<u32> = serde_json::from_value(v["noncf"].clone()).unwrap_or_default();
+    if v["via"].as_str() == Some("artifact") {
+        // `noncf` already holds the unjudged ids of an artifact case
+        let inp = crate::art::ArtInput { label: "replay".into(), reg: reg.clone(), d: d.clone(), unjudged: noncf, source: None };
+        crate::art::run_batch(ctx, "C01", vec![inp], 0, 12);
+        ctx.case(0, true);
+        return;
+    }
     let unjudged = unjudged_ids(&reg, &noncf);
     let vv = v.clone();
     let replay = move |_id: Option<u32>| vv.clone();
